@@ -83,6 +83,17 @@ def run(ck, tier):
     # the region must contain the id allocation, the transmit and the pickup
     if region is not None:
         inside = {callee_name(c) for c in ast.walk(region) if isinstance(c, ast.Call)}
+        # private helpers of the manager called from the region run inside it: their calls count (transitively)
+        grew = True
+        while grew:
+            grew = False
+            for nm in sorted(inside):
+                h = cx.idx.find_method(tm, nm) if isinstance(nm, str) and nm.startswith('_') and not nm.startswith('__') else None
+                if h is not None and nm not in cx.TX_MODELLED:
+                    more = {callee_name(c) for c in ast.walk(h.node) if isinstance(c, ast.Call)} - inside
+                    if more:
+                        inside |= more
+                        grew = True
         for need in ('getNextTID', '_transact', 'processIncomingPacket', 'getTransaction'):
             ck.ob('R2', ex.qn, '%s happens inside the locked region' % need, need in inside, detail='not-in-region %s' % need, loc=cx.floc(ex),
                   message='%s is not called inside the locked region of execute()' % need)
